@@ -48,6 +48,16 @@ func pickTime(class string, rng *rand.Rand) ledger.Time {
 		return ledger.Time{Time: base.Add(time.Duration(rng.Intn(1000000)) * time.Microsecond)}
 	case "far-past":
 		return ledger.Time{Time: time.Date(1+rng.Intn(1500), 1, 1, 0, 0, 0, rng.Intn(1000)*1000, time.UTC)}
+	case "year-9999-edge":
+		// what ParseTime (the API's decoder) makes of the last instants of year 9999; a string it refuses is not a timestamp the API accepts
+		cands := []string{"9999-12-31T23:59:59.9999996Z", "9999-12-31T23:59:59.9999995Z", "9999-12-31T23:59:59.9999996-05:00", "9999-12-31T23:59:59.9999994Z", "9999-12-31T23:59:59.999999Z"}
+		k := rng.Intn(len(cands))
+		for i := range cands {
+			if t, err := ledger.ParseTime(cands[(k+i)%len(cands)]); err == nil {
+				return t
+			}
+		}
+		return ledger.Time{Time: base}
 	case "far-future":
 		return ledger.Time{Time: time.Date(3000+rng.Intn(6000), 12, 31, 23, 59, 59, 999999000, time.UTC)}
 	default: // a time the API accepted with a zone offset (ParseTime keeps the zone)
@@ -123,6 +133,9 @@ func build(e entry, rng *rand.Rand) *ledger.Log {
 	// the date of a log entry is always produced by the engine (ledger.Now(): UTC, microseconds);
 	// the timestamp of a transaction is whatever the API accepted
 	logDate := ts.UTC()
+	if e.Time == "year-9999-edge" {
+		logDate = pickTime("micro", rng).UTC()
+	}
 	var l *ledger.Log
 	mkTx := func(id *big.Int) *ledger.Transaction {
 		tx := ledger.NewTransaction().WithPostings(
